@@ -15,6 +15,9 @@ package file
 //@   nopanic
 //@   requires [len] keyLen >= 0 && keyLen < 1048576
 //@   ensures [len] len(key) == keyLen
+// the legacy key is a function of the passphrase bytes; the result may share memory with the
+// passphrase (it does when the passphrase is long enough), so nothing is said about freshness
+//@   assumes [legacy-kdf] val(key) == LegacyKey(val(passphrase), keyLen)
 //@   loop 1 invariant [idx] len(passphrase) <= i && len(key) == keyLen && i >= 0
 
 //@ func deriveKeyArgon2(passphrase, salt, keyLen) (key)
@@ -27,9 +30,16 @@ package file
 //@   requires [key] pubKey != nil
 //@   ensures [address] err == nil ==> val(addr) == AddrOf(pkraw(pubKey.val)) && len(addr) == 32
 
+// the key file is opened with the key derived from the passphrase the caller gave - and from
+// nothing else (in particular not from a buffer that has been wiped in the meantime)
 //@ func (s *FileSystemSigner) loadKeys(passphrase) (err)
 //@   property C19
 //@   nopanic
+//@   observe fb := call fallbackDeriveKey
+//@   observe ar := call deriveKeyArgon2
+//@   observe op := call Open
+//@   ensures [opens-with-passphrase-key] op ==> (fb && op.arg0.key == LegacyKey(old(val(passphrase)), 32)) || (ar && op.arg0.key == KDF(old(val(passphrase)), ar.arg1val))
+//@   ensures [derives-once] fb.count + ar.count <= 1
 //@   modifies s.privateKey, s.publicKey, passphrase[:]
 //@   ensures [pub-matches-priv] err == nil ==> s.privateKey != nil && s.publicKey != nil && pkraw(s.publicKey.val) == PubOf(skraw(s.privateKey.val))
 //@   ensures [no-usable-signer-on-error] err != nil ==> s.privateKey == old(s.privateKey) && s.publicKey == old(s.publicKey)
